@@ -64,12 +64,12 @@ example : Model.tzoff [45, 48, 51, 51, 48] = some (-12600) := by decide
 
 /-- Which instant a date condition compares: `date [header]` the `Date` header (`getHeader1` +
 `timeParse`; absent header = no match, unparsable = error), `date access` / `modified` / `created`
-the entry of the `stat` oracle for that very field (`st_atim` / `st_mtim` / `st_ctim` in
-`expr_eval_date`; failure of `stat` or `time_format` = error) ... -/
+the field `st_atim` / `st_mtim` / `st_ctim` of what the `stat` oracle returns for the message's path
+(`Proofs.statInstant`; failure of `stat` or of `time_format` = error) ... -/
 theorem C15_fields_source (env : Env) (m : Msg) :
-    Proofs.dateInstant env m .access = (env.fileTime .access).map some ∧
-    Proofs.dateInstant env m .modified = (env.fileTime .modified).map some ∧
-    Proofs.dateInstant env m .created = (env.fileTime .created).map some ∧
+    Proofs.dateInstant env m .access = Proofs.statInstant env (·.atime) ∧
+    Proofs.dateInstant env m .modified = Proofs.statInstant env (·.mtime) ∧
+    Proofs.dateInstant env m .created = Proofs.statInstant env (·.ctime) ∧
     Proofs.dateInstant env m .header =
       (match getHeader1 m (ofString "Date") with
        | none => some none
@@ -78,6 +78,41 @@ theorem C15_fields_source (env : Env) (m : Msg) :
          | none => none
          | some t => some (some (t, d))) :=
   ⟨rfl, rfl, rfl, rfl⟩
+
+/-- **The file fields are bound to the right time stamp.**  `env.fileTime : path → Option FileTimes` is `stat(2)`
+(`none` = it failed, otherwise the three `tv_sec` values of `st_atim`, `st_mtim`, `st_ctim`), `env.timeFormat` is
+`time_format` (only the text shown by `-d`), `env.path` the path of the message (`message_get_path`; a part of a
+message has the path of the message).  For every environment, message, state, comparison and age, and for
+`field` = `access`, `modified` or `created`:
+
+* a failing `stat` of the message's path is an ERROR for that message (not "no match");
+* otherwise the instant compared is `Proofs.fieldTime sb field`: `sb.mtime` for `modified`, `sb.ctime` for `created`,
+  `sb.atime` for `access` - no other entry of `sb`, no other path, not the `Date` header (the right-hand side does not
+  mention the message `m`);
+* `time_format` failing is an error; otherwise the condition matches iff `now - instant > age` (`>`) resp.
+  `now - instant < age` (`<`), strictly (`Proofs.AgeHolds`), and the match is recorded through `expr_regexec`. -/
+theorem C15_file_fields (env : Env) (root : Msg) (lno : Nat) (field : DateField) (cmp : DateCmp) (age : Nat)
+    (part : Nat) (m : Msg) (st : St) (hf : field ≠ .header) :
+    (Proofs.fieldTime ⟨1, 2, 3⟩ .access = 1 ∧ Proofs.fieldTime ⟨1, 2, 3⟩ .modified = 2 ∧ Proofs.fieldTime ⟨1, 2, 3⟩ .created = 3) ∧
+    (∀ sb : FileTimes, Proofs.fieldTime sb .access = sb.atime ∧ Proofs.fieldTime sb .modified = sb.mtime ∧
+      Proofs.fieldTime sb .created = sb.ctime) ∧
+    eval env root (.date lno field cmp age) part m st =
+      (match env.fileTime env.path with
+       | none => (.error, st)
+       | some sb =>
+         match env.timeFormat (Proofs.fieldTime sb field) with
+         | none => (.error, st)
+         | some text =>
+           if Proofs.AgeHolds cmp age env.now (Proofs.fieldTime sb field) then
+             exprRegexec env .date lno part { src := [46, 42] } (ofString "Date") text st
+           else (.nomatch, st)) :=
+  ⟨⟨rfl, rfl, rfl⟩, fun _ => ⟨rfl, rfl, rfl⟩, Proofs.date_file_fields env root lno field cmp age part m st hf⟩
+
+/-- A failing `stat` is an error for that message, whatever else the environment says. -/
+theorem C15_file_stat_fails (env : Env) (root : Msg) (lno : Nat) (field : DateField) (cmp : DateCmp) (age : Nat)
+    (part : Nat) (m : Msg) (st : St) (hf : field ≠ .header) (hs : env.fileTime env.path = none) :
+    eval env root (.date lno field cmp age) part m st = (.error, st) := by
+  rw [Proofs.date_file_fields env root lno field cmp age part m st hf, hs]
 
 /-- ... and the whole `date` case of the evaluator, for every field, comparison, age, `now` and state:
 error if the instant cannot be had, no match without one, otherwise a match (recorded through
@@ -115,5 +150,12 @@ example : (eval Proofs.exDateEnv { headers := [], body := [] } (.date 1 .access 
 example : (eval Proofs.exDateEnv { headers := [], body := [] } (.date 1 .access .lt 701) 0 { headers := [], body := [] }
     { ml := [], flags := MFlags.empty }).1 = .match := by simp only [eval]; decide +kernel
 example : Proofs.AgeHolds .lt 0 1000 2000 := by decide
+
+/-- Non-vacuity of `C15_file_fields` / `C15_file_stat_fails`: `Proofs.exDateEnv` answers `stat` for its own path
+`/m/new/1` (three different time stamps) and for no other path: with another path the same conditions are errors. -/
+example : Proofs.exDateEnv.fileTime Proofs.exDateEnv.path = some ⟨300, 100, 200⟩ ∧ DateField.modified ≠ DateField.header ∧
+    ({ Proofs.exDateEnv with path := [47, 120] } : Env).fileTime [47, 120] = none := by decide
+example : (eval { Proofs.exDateEnv with path := [47, 120] } { headers := [], body := [] } (.date 1 .modified .gt 850) 0
+    { headers := [], body := [] } { ml := [], flags := MFlags.empty }).1 = .error := by simp only [eval]; decide +kernel
 
 end Mdsort.Props
